@@ -75,8 +75,9 @@ var vfSentinel = errors.New("verif sentinel cause")
 // ---------------------------------------------------------------------------------------------- logging
 
 type vfRec struct {
-	mu    sync.Mutex
-	lines []string
+	mu     sync.Mutex
+	lines  []string
+	closed bool // set when the scenario is over: late observations of still-running bodies are dropped
 }
 
 func vfNorm(v any) any {
@@ -105,6 +106,9 @@ func vfNorm(v any) any {
 }
 
 func (r *vfRec) emit(kv map[string]any) {
+	if r.closed {
+		return
+	}
 	for k, v := range kv {
 		kv[k] = vfNorm(v)
 	}
@@ -644,8 +648,8 @@ func (r *vfRun) call(run Runnable[map[string]any, map[string]any], paradigm stri
 	select {
 	case o := <-ch:
 		return o
-	case <-time.After(20 * time.Second):
-		return vfOutcome{err: errors.New("verif watchdog: call did not return within 20s")}
+	case <-time.After(vfWatchdog):
+		return vfOutcome{err: errors.New("verif watchdog: call did not return in time")}
 	}
 }
 
@@ -714,6 +718,20 @@ func (r *vfRun) runScenario() {
 				rec.log(line)
 				if sc.NoID {
 					rec.log(map[string]any{"ev": "abandon"})
+					return
+				}
+				// cyclic graphs interrupted at every step never end (the step counter restarts with every call) and their
+				// terms double per step: stop after a bounded number of node executions
+				rec.mu.Lock()
+				n := 0
+				for _, l := range rec.lines {
+					if strings.HasPrefix(l, `{"ev":"exec"`) {
+						n++
+					}
+				}
+				rec.mu.Unlock()
+				if n > 12 {
+					rec.log(map[string]any{"ev": "giveup"})
 					return
 				}
 				continue
@@ -827,8 +845,12 @@ func TestVerifEngine(t *testing.T) {
 					r.gates = newVfGates()
 				}
 				r.runScenario()
+				r.rec.mu.Lock()
+				r.rec.closed = true
+				lines := r.rec.lines
+				r.rec.mu.Unlock()
 				wmu.Lock()
-				for _, l := range r.rec.lines {
+				for _, l := range lines {
 					w.WriteString(l)
 					w.WriteByte('\n')
 				}
@@ -845,3 +867,12 @@ func TestVerifEngine(t *testing.T) {
 	of.Close()
 	fmt.Printf("VERIF-ENGINE scenarios=%d\n", len(scs))
 }
+
+// per-call watchdog: a call on these graphs takes microseconds; VERIF_WATCHDOG_MS overrides (default 5000)
+var vfWatchdog = func() time.Duration {
+	ms := 5000
+	if s := os.Getenv("VERIF_WATCHDOG_MS"); s != "" {
+		fmt.Sscanf(s, "%d", &ms)
+	}
+	return time.Duration(ms) * time.Millisecond
+}()
